@@ -191,8 +191,10 @@ def no_carried_positive(ctx: Ctx, rep: Report, f: Func, q: str, of) -> None:
                 rep.ok(f"{q}: flag `{name}`", "re-initialised in every iteration over the candidate's members before it is read", where=where(f, st))
 
 
-def containment_operator(ctx: Ctx, rep: Report, q: str) -> None:
-    f = ctx.func(q)
+def containment_operator(ctx: Ctx, rep: Report, q: str, f: Optional[Func] = None, _seen: Optional[Set[int]] = None) -> None:
+    f = f if f is not None else ctx.func(q)
+    _seen = _seen if _seen is not None else set()
+    _seen.add(id(f))
     rep.require(len(f.params) >= 2, f"{q} lost its operand")
     other = f.params[1]
     t = _taint(f, {"self": "self", other: "other"})
@@ -200,6 +202,16 @@ def containment_operator(ctx: Ctx, rep: Report, q: str) -> None:
     cfg = ctx.cfg(f)
     # ---- direction of the elementary tests
     tests = _elementary_tests(f)
+    # a private method of the same class that is handed (a part of) the operand answers a containment question itself:
+    # it is held to the same rules with its parameter as the candidate, and its call counts as a test `arg in self`
+    if f.cls is not None:
+        for n in own_nodes(f.node):
+            if isinstance(n, ast.Call) and isinstance(n.func, ast.Attribute) and src(n.func.value) == "self" and n.func.attr.startswith("_") and not n.func.attr.startswith("_get") and len(n.args) == 1 and not n.keywords and of(n.args[0]) == {"other"}:
+                m = f.cls.lookup_method(n.func.attr)
+                if m is not None and len(m.params) == 2 and m.kind == "method":
+                    tests.append((n, n.args[0], ast.Name(id="self", ctx=ast.Load()), "helper"))
+                    if id(m) not in _seen:
+                        containment_operator(ctx, rep, m.qualname, m, _seen)
     n_dir = 0
     for node, cand, cont, form in tests:
         tc, tk = of(cand), of(cont)
